@@ -100,9 +100,18 @@ def real_name_ok(name: str) -> bool:
         return False
 
 
+# independent restatement of the property's name clause (NOT the code under test): '<ns>::<name>[.<overload>]',
+# default overloads spelled without '.default'
+_SPEC_NAME = re.compile(r"[a-zA-Z0-9_]+::[a-zA-Z0-9_]+(\.[a-zA-Z0-9._]+)?")
+
+
+def spec_name_ok(name: str) -> bool:
+    return _SPEC_NAME.fullmatch(name) is not None and not name.endswith(".default")
+
+
 def twin_defects(r: dict) -> list[str]:
     out = []
-    if not real_name_ok(r["qualified"]):
+    if not spec_name_ok(r["qualified"]):
         out.append("badName")
     if r["res"] == "undefined":
         out.append("undefinedOp")
@@ -395,15 +404,21 @@ E2E = {
     # fixed by 50e6b6d (C16-kw-rejected-like-ops): must export now; reproducing again is a VIOLATION
     "rand_like_memory_format": ("FIXED", "torch.rand_like(x, memory_format=torch.preserve_format) [aten::rand_like]"),
     "mean_dtype": ("C16-nondroppable-dropped", "x.mean(dtype=torch.float64) [aten::mean, dtype silently dropped]"),
+    "quantize_per_tensor_tensor": ("C16-tensor-on-attribute", "quantized_decomposed.quantize_per_tensor.tensor(x, scale_t, zp_t, -128, 127, int8)"),
 }
 
 
 def run_e2e(which: str) -> tuple[bool, str]:
     """True = the finding reproduces through the real exporter."""
     import torch
+    import torch.ao.quantization.fx._decomposed  # noqa: F401  (registers quantized_decomposed::*)
 
     class M(torch.nn.Module):
         def forward(self, x):
+            if which == "quantize_per_tensor_tensor":
+                return torch.ops.quantized_decomposed.quantize_per_tensor.tensor(
+                    x, torch.tensor(0.1), torch.tensor(0, dtype=torch.int64), -128, 127, torch.int8
+                )
             if which == "amax_no_dim":
                 return torch.amax(x)
             if which == "rand_like_memory_format":
@@ -546,7 +561,12 @@ def main(run: core.Run) -> None:
             if "undefinedOp" in t or calls:
                 known_rows.setdefault(owner[r["qualified"]], []).append(r["qualified"])
             continue
-        if "undefinedOp" in extra:
+        if "badName" in extra:
+            # the registry holds it, so the real _check_and_normalize_names accepted it: the name is the failing input
+            problems.append({"kind": "name", "name": r["qualified"], "registered": True,
+                             "detail": f"registered name {r['qualified']!r} (function {r['func']}) is not '<ns>::<name>[.<overload>]' "
+                             f"without '.default'; _check_and_normalize_names accepts it: {real_name_ok(r['qualified'])}"})
+        elif "undefinedOp" in extra:
             problems.append({"kind": "undefined", "qualified": r["qualified"], "isComplex": r["isComplex"],
                              "detail": f"the exporter's resolver finds no operator '{r['qualified']}' in torch {data['torch_version']}"})
         elif extra or calls:
@@ -571,13 +591,19 @@ def main(run: core.Run) -> None:
 
     # ---- (b) names
     base = sorted({r["qualified"] for r in rows})
-    names = base + gen_names(run.rng, base, run.size(1500, 20000))
+    # every registered default-overload name re-spelled with '.default', and '.default' behind every overload
+    dflt = [b + ".default" for b in base if not b.endswith(".default")]
+    names = base + dflt + gen_names(run.rng, base, run.size(1500, 20000))
     names = [n for n in dict.fromkeys(names)]
     nouts = drv.ask(["name " + enc_codes(n) for n in names])
     for n, mo in zip(names, nouts):
         real = real_name_ok(n)
         stats["names"] += 1
         stats["names_accepted" if real else "names_refused"] += 1
+        if n.endswith(".default"):
+            stats["names_dot_default"] += 1
+        if spec_name_ok(n) != (mo == "true"):
+            raise core.Infra(f"python restatement of the name rule and Lean nameOk disagree on {n!r}")
         if (mo == "true") != real:
             if real:  # the real check admits a name the property calls malformed
                 problems.append({"kind": "name", "name": n, "detail": f"_check_and_normalize_names accepts {n!r}, which is not "
@@ -647,7 +673,7 @@ def main(run: core.Run) -> None:
 
     # ---- verdict
     order = {"call": 0, "undefined": 1, "duplicate": 2, "name": 3, "reg": 4, "proto": 5}
-    problems.sort(key=lambda p: (order.get(p["kind"], 9), len(json.dumps(p, default=str))))
+    problems.sort(key=lambda p: (order.get(p["kind"], 9), not p.get("registered", False), len(json.dumps(p, default=str))))
     reported = set()
     for p in problems:
         key = p["kind"] if p["kind"] in ("name", "reg") else (p["kind"], p.get("qualified"))
